@@ -6,6 +6,7 @@
 
 #include "vmd_protocol.h"
 #include <stdio.h>
+#include <stdlib.h>
 #include <unistd.h>
 #include <errno.h>
 #include <string.h>
@@ -16,10 +17,19 @@
  * ======================================================================== */
 
 void vmd_socket_path(char *buf, size_t size) {
+#ifdef NANOLANG_VERIF
+    /* verification hook H3: each check run talks to its own daemon */
+    const char *o = getenv("NANOLANG_VERIF_VMD_SOCK");
+    if (o && o[0]) { snprintf(buf, size, "%s", o); return; }
+#endif
     snprintf(buf, size, "/tmp/nanolang_vm_%u.sock", (unsigned)getuid());
 }
 
 void vmd_pid_path(char *buf, size_t size) {
+#ifdef NANOLANG_VERIF
+    const char *o = getenv("NANOLANG_VERIF_VMD_PID");
+    if (o && o[0]) { snprintf(buf, size, "%s", o); return; }
+#endif
     snprintf(buf, size, "/tmp/nanolang_vm_%u.pid", (unsigned)getuid());
 }
 
